@@ -8,13 +8,13 @@ EXTENDS Naturals, Integers, Sequences, FiniteSets
 CONSTANT ReplyLen     \* chunks of a complete reply (only used by the operational layer)
 
 \* ---- the behaviour catalogue
-OkLike      == {"ok0", "ok1", "ok2"}                  \* valid reply with 0..2 files
+OkLike      == {"ok0", "ok1", "ok2", "okinfo", "okwarn"}   \* valid reply with 0..2 files; with one file and a diagnostic of level info / warning
 NotStarted  == {"missing", "noexec"}                  \* cannot be spawned
 ExitsBadly  == {"exit1", "exit255", "sigkill", "sigsegv"}
 BadReply    == {"trunc1", "truncmid", "trunclast", "truncat", "badbool", "badutf8", "badlevel", "hugesize", "empty"}
 Catalogue   == OkLike \cup NotStarted \cup ExitsBadly \cup BadReply \cup {"stderr0", "noread"}
 ReadsAll(b) == b \in OkLike \cup ExitsBadly \cup BadReply \cup {"stderr0"}
-NFilesOf(b) == CASE b = "ok1" -> 1 [] b = "ok2" -> 2 [] OTHER -> 0
+NFilesOf(b) == CASE b \in {"ok1", "okinfo", "okwarn"} -> 1 [] b = "ok2" -> 2 [] OTHER -> 0
 \* how many reply chunks a behaviour writes before exiting
 ReplyChunks(b) == CASE b \in OkLike \cup {"badbool", "badutf8", "badlevel", "hugesize"} -> ReplyLen
                     [] b \in {"trunc1", "truncmid", "trunclast", "truncat"} -> ReplyLen - 1
